@@ -15,8 +15,9 @@ MANIFEST = {
     "level_text": "Theorems (coq/c10/C10Theorems.v), all for ALL inputs. C10_crop_end_to_end (the property, about crop_mp4_file/"
                   "crop_mp4_output = cropMP4): any number of tracks with handler types, every track static_ok (consistent tables, id != 0, chunk "
                   "offsets in [1,2^62) in ANY order - non-monotone, overlapping, zero-size, adjacent chunks included, ex_wild_layout -, chunks "
-                  "inside the file), stts deltas positive, >= 1 sample, every requested duration ms; NOTHING assumed about the end time. If "
-                  "the tool succeeds: the reference track is the first 'vide' track else the first 'soun' track (C10_reference_track); T is "
+                  "inside the file), stts deltas positive, 32-bit timescale, every requested duration ms; NOTHING assumed about the end time, "
+                  "the number of samples (C10_empty_track) or the track ids. If the tool succeeds: the track ids are pairwise distinct "
+                  "(C10_success_distinct_ids; the repaired findTrakEnds refuses a repeated id, finding C10-F10), the reference track is the first 'vide' track else the first 'soun' track (C10_reference_track); T is "
                   "the start of the first sync sample of it starting at or after floor(ms*timescale/1000) and not sample 1 (exact comparison "
                   "under the guard (ms*timescale) mod 1000 = 0: C10_end_time_exact; false without: C10_end_time_exact_refuted = known C10-F6); "
                   "the end time rescaled per track lies inside every track (derived from success); for every track k_t = number of samples "
@@ -28,18 +29,19 @@ MANIFEST = {
                   "|pre|+8 <= o and o + kept chunk bytes <= end of the new mdat, every kept sample read through the OUTPUT tables (C09 "
                   "S_offset_of/S_size/trak_get_ranges) yields the input's bytes. writeMdat: lazy mode C10_write_mdat + C10_write_mdat_inv "
                   "(success => header + exactly the ranges), in-memory mode (File.Mdat.Data) C10_write_mdat_mem for ranges starting inside "
-                  "the input payload; C10_write_mdat_modes_differ: an empty range at the end of the payload is refused in memory only. "
+                  "the input payload; C10_write_mdat_modes_differ: an empty range at the end of the payload is refused in memory only; "
+                  "C10_crop_end_to_end_mem_input: the same end-to-end conclusion for the in-memory mode when every chunk lies inside the "
+                  "input mdat payload (every byte range starts at a chunk offset: C10_range_starts). C10_crop_mp4_durations: cropMP4 incl. "
+                  "writeUptoMdat (crop_mp4_all) succeeds only if crop_mp4_file does and the header durations do not exceed the originals. "
                   "Earlier theorems kept: per-routine crop theorems, C10_k, C10_end_time_*, C10_fill_terminates, C10_layout(_total/_ranges), "
                   "C10_samples_end_to_end, C10_output_readable, C10_crop_to_time, C10_header_durations (+ C10_mvhd_duration_refuted = known "
                   "C10-F9), C10_offsets_input_header_refuted, C10_stco_wrap_refuted. "
                   "Explored only (correspondence + search): the ENCODING of the non-mdat boxes (pre: any bytes of the modelled length), the "
-                  "wiring of writeUptoMdat between updateChunkOffsets and writeMdat, the composed theorem for the in-memory mode (chunks inside "
-                  "the input mdat payload would be an extra hypothesis), duplicate track ids (the tool keys its per-track state by track id; "
-                  "the model by position), and the whole binary on synthesized files.",
+                  "order of the Encode calls inside writeUptoMdat, and the whole binary on synthesized files.",
     "level_note": "Trusted: Coq kernel, extraction, OCaml/Go glue, hand transcription checked only differentially (virt correspondence: the "
                   "model's sizeWithoutMdat, computed from rest = real size minus the real Size() of the input's table boxes, must equal the "
                   "start of the mdat cropMP4 writes; a checksum of the written mdat payload must equal the model's write_mdat bytes, lazy and "
-                  "in-memory input mdat; handler letters v/s/o per track); the byte encoding of moov/ftyp/free is not modelled (only its "
+                  "in-memory input mdat; handler letters v/s/o per track; a repeated track id); the byte encoding of moov/ftyp/free is not modelled (only its "
                   "length); `rest` (bytes of the boxes the crop does not resize) is an input of the model; hypotheses of the end-to-end "
                   "theorem: trak_wf per track, 2^62 + 2*sample bytes < 2^64, |pre| + 8 + 2*sample bytes < 2^64, input file < 2^63 bytes, "
                   "lazily decoded non-empty input mdat; C10SizeProofs imports coq/c01/C01Model.v read-only.",
@@ -85,6 +87,7 @@ def run(ctx):
         "free/skip/unknown box between moov and mdat, 1 in 12 with an mvhd duration below the track durations)",
         "end-to-end theorem: static_ok (consistent tables, non-zero track ids, chunk offsets in [1,2^62), chunks inside the file), "
         "2^62 + 2*(sample bytes) < 2^64, S + h + sample bytes < 2^64",
+        "one synthesized file in 16 (2-3 tracks) repeats a track id, one audio track in 8 has handler subt (never the reference track)",
         "the property is conditional on the tool succeeding; refusals (error exit) are counted, crashes are failures",
     ]
     exe, tdrv, tool, model = build(ctx)
@@ -129,7 +132,8 @@ def run(ctx):
                             "mvhd, malformed: timescale 0, wrapping product); writeMdat (0-4 ranges, lazy 3/4, malformed: outside payload/file, "
                             "inverted, empty lazy payload); cropMP4 on virtual files (3 durations per table set, mdat first/last, 8/16-byte "
                             "header, free/skip/unknown box, handler v/s/o per track incl. no video / no video or audio, input mdat decoded "
-                            "lazily 2/3 or into memory 1/3, sizeWithoutMdat and payload checksum compared) + the 4 GiB stco witness; one "
+                            "lazily 2/3 or into memory 1/3, 1/10 of the multi-track cases with a repeated track id, sizeWithoutMdat and payload "
+                            "checksum compared) + the 4 GiB stco witness; one "
                             "table set in three (fill, shift, virt) with the wild chunk layout",
         }
         ctx.cov["samples"] += [l[:300] for l in lines[:2]] + [l[:300] for l in lines[-2:]]
